@@ -96,7 +96,7 @@ pub static APT_SOURCE: &[FieldSpec] = &[
     f("Description", false, MULTI, None),
     f("Version", true, VERSIONS, Some("not a version!")),
     f("Package", true, &["cvsd", "foo"], None),
-    f("Binary", false, &["cvsd", "a b c"], None),
+    f("Binary", false, &["cvsd", "a, b, c", "libabsl-dev, libabsl20240722"], None),
     f("Maintainer", false, &["Arthur de Jong <adejong@debian.org>"], None),
     f("Build-Depends", false, &["debhelper (>= 9), po-debconf"], None),
     f("Build-Depends-Indep", false, RELS, Some("a (")),
@@ -146,7 +146,7 @@ pub static APT_PACKAGE: &[FieldSpec] = &[
     f("Size", false, NUMS, Some("12k")),
     f("MD5sum", false, &["d41d8cd98f00b204e9800998ecf8427e"], None),
     f("SHA256", false, &["e3b0c44298fc1c149afbf4c8996fb92427ae41e4649b934ca495991b7852b855"], None),
-    f("Description-MD5", false, &["0123456789abcdef0123456789abcdef"], None),
+    f("Description-md5", false, &["0123456789abcdef0123456789abcdef"], None),
 ];
 
 pub static BUILDINFO: &[FieldSpec] = &[
